@@ -19,6 +19,7 @@ package vars
 import (
 	"unsafe"
 
+	"github.com/bytedance/sonic/internal/caching"
 	"github.com/bytedance/sonic/internal/rt"
 )
 
@@ -29,20 +30,27 @@ type Encoder func(
 	fv uint64,
 ) error
 
+func cacheOf(pv bool) *caching.ProgramCache {
+	if pv {
+		return programCachePv
+	}
+	return programCache
+}
+
 func FindOrCompile(vt *rt.GoType, pv bool, compiler func(*rt.GoType, ...interface{}) (interface{}, error)) (interface{}, error) {
-	if val := programCache.Get(vt); val != nil {
+	if val := cacheOf(pv).Get(vt); val != nil {
 		return val, nil
-	} else if ret, err := programCache.Compute(vt, compiler, pv); err == nil {
+	} else if ret, err := cacheOf(pv).Compute(vt, compiler, pv); err == nil {
 		return ret, nil
 	} else {
 		return nil, err
 	}
 }
 
-func GetProgram(vt *rt.GoType) interface{} {
-	return programCache.Get(vt)
+func GetProgram(vt *rt.GoType, pv bool) interface{} {
+	return cacheOf(pv).Get(vt)
 }
 
 func ComputeProgram(vt *rt.GoType, compute func(*rt.GoType, ...interface{}) (interface{}, error), pv bool) (interface{}, error) {
-	return programCache.Compute(vt, compute, pv)
+	return cacheOf(pv).Compute(vt, compute, pv)
 }
